@@ -20,18 +20,21 @@
 (***************************************************************************)
 EXTENDS Naturals, Sequences
 
-CONSTANTS MaxN
+CONSTANTS MaxN,
+          MaxFail     \* scenario: the failAt-th call of send() raises (failAt \in 0..MaxFail, 0 = never), as in SseAsgi.tla
 
-VARIABLES n, raiseAt,               \* scenario (raiseAt as in SseAsgi.tla)
+VARIABLES failAt, sends, sfail,
+          n, raiseAt,               \* scenario (raiseAt as in SseAsgi.tla)
           running, mpc, wpc,
           clientClosed, discDelivered, wCancelReq,
           rsStarted, rsFinished,    \* render_stream entered / its finally has run
           cur, produced, begun, closed, released,
           delivered, finalSent, mexc, outcome
-vars == <<n, raiseAt, running, mpc, wpc, clientClosed, discDelivered, wCancelReq, rsStarted, rsFinished, cur, produced, begun, closed, released,
+vars == <<n, raiseAt, failAt, sends, sfail, running, mpc, wpc, clientClosed, discDelivered, wCancelReq, rsStarted, rsFinished, cur, produced, begun, closed, released,
           delivered, finalSent, mexc, outcome>>
 
 Init == /\ n \in 0..MaxN /\ raiseAt \in 0..(MaxN + 1) /\ raiseAt <= n + 1
+        /\ failAt \in 0..MaxFail /\ sends = 0 /\ sfail = FALSE
         /\ running = "main" /\ mpc = "init" /\ wpc = "none"
         /\ clientClosed = FALSE /\ discDelivered = FALSE /\ wCancelReq = FALSE
         /\ rsStarted = FALSE /\ rsFinished = FALSE /\ cur = 0 /\ produced = 0 /\ begun = FALSE /\ closed = 0 /\ released = FALSE
@@ -40,32 +43,32 @@ Init == /\ n \in 0..MaxN /\ raiseAt \in 0..(MaxN + 1) /\ raiseAt <= n + 1
 Holds == running = "main"
 Free == running = "none"
 
-MSendStart == /\ Holds /\ mpc = "init" /\ mpc' = "spawn" /\ running' = "none"
-              /\ UNCHANGED <<n, raiseAt, wpc, clientClosed, discDelivered, wCancelReq, rsStarted, rsFinished, cur, produced, begun, closed, released,
-                             delivered, finalSent, mexc, outcome>>
+MSendStart == /\ Holds /\ mpc = "init" /\ sends' = 1
+              /\ IF failAt = 1 THEN mpc' = "fail" /\ UNCHANGED running ELSE mpc' = "spawn" /\ running' = "none"
+              /\ UNCHANGED <<n, raiseAt, failAt, wpc, clientClosed, discDelivered, wCancelReq, rsStarted, rsFinished, cur, produced, begun, closed, released, mexc, sfail, delivered, finalSent, outcome>>
 MSpawn == /\ Free /\ mpc = "spawn" /\ wpc' = "ready" /\ mpc' = "top" /\ running' = "main"
-          /\ UNCHANGED <<n, raiseAt, clientClosed, discDelivered, wCancelReq, rsStarted, rsFinished, cur, produced, begun, closed, released,
+          /\ UNCHANGED <<n, raiseAt, failAt, sends, sfail, clientClosed, discDelivered, wCancelReq, rsStarted, rsFinished, cur, produced, begun, closed, released,
                          delivered, finalSent, mexc, outcome>>
 \* while not self._client_closed: chunk = await generator.asend(None) -> the user's __anext__ is awaited (may suspend)
 MTop == /\ Holds /\ mpc = "top"
         /\ IF clientClosed THEN mpc' = "fin" /\ UNCHANGED <<rsStarted, begun, running>>
            ELSE mpc' = "anext" /\ rsStarted' = TRUE /\ begun' = TRUE /\ running' = "none"
-        /\ UNCHANGED <<n, raiseAt, wpc, clientClosed, discDelivered, wCancelReq, rsFinished, cur, produced, closed, released,
+        /\ UNCHANGED <<n, raiseAt, failAt, sends, sfail, wpc, clientClosed, discDelivered, wCancelReq, rsFinished, cur, produced, closed, released,
                        delivered, finalSent, mexc, outcome>>
 \* the producer yields its next item ...
 MItem == /\ Free /\ mpc = "anext" /\ produced < n /\ raiseAt # produced + 1
          /\ produced' = produced + 1 /\ cur' = produced + 1 /\ mpc' = "yield" /\ running' = "main"
-         /\ UNCHANGED <<n, raiseAt, wpc, clientClosed, discDelivered, wCancelReq, rsStarted, rsFinished, begun, closed, released,
+         /\ UNCHANGED <<n, raiseAt, failAt, sends, sfail, wpc, clientClosed, discDelivered, wCancelReq, rsStarted, rsFinished, begun, closed, released,
                         delivered, finalSent, mexc, outcome>>
 \* ... or finishes: its own cleanup has run; render_stream's finally then calls aclose() on it (nothing left to run)
 MEnd == /\ Free /\ mpc = "anext" /\ produced = n /\ raiseAt = 0
         /\ closed' = closed + 1 /\ mpc' = "release" /\ running' = "main"
-        /\ UNCHANGED <<n, raiseAt, wpc, clientClosed, discDelivered, wCancelReq, rsStarted, rsFinished, cur, produced, begun, released,
+        /\ UNCHANGED <<n, raiseAt, failAt, sends, sfail, wpc, clientClosed, discDelivered, wCancelReq, rsStarted, rsFinished, cur, produced, begun, released,
                        delivered, finalSent, mexc, outcome>>
 \* ... or raises: its cleanup has run, the exception passes through render_stream's finally
 MProducerRaise == /\ Free /\ mpc = "anext" /\ raiseAt = produced + 1
                   /\ closed' = closed + 1 /\ mexc' = TRUE /\ mpc' = "release" /\ running' = "main"
-                  /\ UNCHANGED <<n, raiseAt, wpc, clientClosed, discDelivered, wCancelReq, rsStarted, rsFinished, cur, produced, begun, released,
+                  /\ UNCHANGED <<n, raiseAt, failAt, sends, sfail, wpc, clientClosed, discDelivered, wCancelReq, rsStarted, rsFinished, cur, produced, begun, released,
                                  delivered, finalSent, outcome>>
 \* render_stream's finally: await iterable.aclose() (a generator suspended at a yield runs its cleanup now)
 GenSuspended == begun /\ closed = 0
@@ -74,48 +77,51 @@ MRelease == /\ Holds /\ mpc \in {"release", "release2"}
             /\ released' = TRUE /\ rsFinished' = TRUE
             /\ closed' = IF GenSuspended THEN closed + 1 ELSE closed
             /\ mpc' = IF mpc = "release" THEN "fin" ELSE "fin2"
-            /\ UNCHANGED <<n, raiseAt, running, wpc, clientClosed, discDelivered, wCancelReq, rsStarted, cur, produced, begun,
+            /\ UNCHANGED <<n, raiseAt, failAt, sends, sfail, running, wpc, clientClosed, discDelivered, wCancelReq, rsStarted, cur, produced, begun,
                            delivered, finalSent, mexc, outcome>>
-MSendBody == /\ Holds /\ mpc = "yield"
-             /\ delivered' = Append(delivered, cur) /\ mpc' = "sent" /\ running' = "none"
-             /\ UNCHANGED <<n, raiseAt, wpc, clientClosed, discDelivered, wCancelReq, rsStarted, rsFinished, cur, produced, begun, closed, released,
-                            finalSent, mexc, outcome>>
+MSendBody == /\ Holds /\ mpc = "yield" /\ sends' = sends + 1
+             /\ IF failAt = sends + 1 THEN sfail' = TRUE /\ mpc' = "fin" /\ UNCHANGED <<running, delivered>>     \* send() raises inside the try
+                ELSE delivered' = Append(delivered, cur) /\ mpc' = "sent" /\ running' = "none" /\ UNCHANGED sfail
+             /\ UNCHANGED <<n, raiseAt, failAt, wpc, clientClosed, discDelivered, wCancelReq, rsStarted, rsFinished, cur, produced, begun, closed, released, mexc, finalSent, outcome>>
 MSent == /\ Free /\ mpc = "sent" /\ mpc' = "top" /\ running' = "main"
-         /\ UNCHANGED <<n, raiseAt, wpc, clientClosed, discDelivered, wCancelReq, rsStarted, rsFinished, cur, produced, begun, closed, released,
+         /\ UNCHANGED <<n, raiseAt, failAt, sends, sfail, wpc, clientClosed, discDelivered, wCancelReq, rsStarted, rsFinished, cur, produced, begun, closed, released,
                         delivered, finalSent, mexc, outcome>>
 \* finally of __call__: cancel the watcher ...
 MFin == /\ Holds /\ mpc = "fin"
         /\ wCancelReq' = (wpc # "done")
         /\ mpc' = IF rsStarted /\ ~rsFinished THEN "release2" ELSE "fin2"     \* ... and aclose render_stream if it is suspended at its yield
-        /\ UNCHANGED <<n, raiseAt, running, wpc, clientClosed, discDelivered, rsStarted, rsFinished, cur, produced, begun, closed, released,
+        /\ UNCHANGED <<n, raiseAt, failAt, sends, sfail, running, wpc, clientClosed, discDelivered, rsStarted, rsFinished, cur, produced, begun, closed, released,
                        delivered, finalSent, mexc, outcome>>
 MRaise == /\ Holds /\ mpc = "fin2" /\ mexc
           /\ outcome' = "raised" /\ mpc' = "done" /\ running' = "none"
-          /\ UNCHANGED <<n, raiseAt, wpc, clientClosed, discDelivered, wCancelReq, rsStarted, rsFinished, cur, produced, begun, closed, released,
+          /\ UNCHANGED <<n, raiseAt, failAt, sends, sfail, wpc, clientClosed, discDelivered, wCancelReq, rsStarted, rsFinished, cur, produced, begun, closed, released,
                          delivered, finalSent, mexc>>
-MSendFinal == /\ Holds /\ mpc = "fin2" /\ ~mexc
-              /\ finalSent' = TRUE /\ mpc' = "ret" /\ running' = "none"
-              /\ UNCHANGED <<n, raiseAt, wpc, clientClosed, discDelivered, wCancelReq, rsStarted, rsFinished, cur, produced, begun, closed, released,
-                             delivered, mexc, outcome>>
+MSendFinal == /\ Holds /\ mpc = "fin2" /\ ~mexc /\ ~sfail /\ sends' = sends + 1
+              /\ IF failAt = sends + 1 THEN mpc' = "fail" /\ UNCHANGED <<running, finalSent>>
+                 ELSE finalSent' = TRUE /\ mpc' = "ret" /\ running' = "none"
+              /\ UNCHANGED <<n, raiseAt, failAt, wpc, clientClosed, discDelivered, wCancelReq, rsStarted, rsFinished, cur, produced, begun, closed, released, mexc, sfail, delivered, outcome>>
+MSendFailed == /\ Holds /\ (mpc = "fail" \/ (mpc = "fin2" /\ ~mexc /\ sfail))
+               /\ outcome' = "sendfailed" /\ mpc' = "done" /\ running' = "none"
+               /\ UNCHANGED <<n, raiseAt, failAt, wpc, clientClosed, discDelivered, wCancelReq, rsStarted, rsFinished, cur, produced, begun, closed, released, mexc, sends, sfail, delivered, finalSent>>
 MReturn == /\ Free /\ mpc = "ret" /\ outcome' = "returned" /\ mpc' = "done"
-           /\ UNCHANGED <<n, raiseAt, running, wpc, clientClosed, discDelivered, wCancelReq, rsStarted, rsFinished, cur, produced, begun, closed, released,
+           /\ UNCHANGED <<n, raiseAt, failAt, sends, sfail, running, wpc, clientClosed, discDelivered, wCancelReq, rsStarted, rsFinished, cur, produced, begun, closed, released,
                           delivered, finalSent, mexc>>
 
 WStart == /\ Free /\ wpc = "ready" /\ wpc' = (IF wCancelReq THEN "done" ELSE "recv")
-          /\ UNCHANGED <<n, raiseAt, running, mpc, clientClosed, discDelivered, wCancelReq, rsStarted, rsFinished, cur, produced, begun, closed, released,
+          /\ UNCHANGED <<n, raiseAt, failAt, sends, sfail, running, mpc, clientClosed, discDelivered, wCancelReq, rsStarted, rsFinished, cur, produced, begun, closed, released,
                          delivered, finalSent, mexc, outcome>>
 WDisc == /\ Free /\ wpc = "recv" /\ ~wCancelReq
          /\ clientClosed' = TRUE /\ discDelivered' = TRUE /\ wpc' = "done"
-         /\ UNCHANGED <<n, raiseAt, running, mpc, wCancelReq, rsStarted, rsFinished, cur, produced, begun, closed, released,
+         /\ UNCHANGED <<n, raiseAt, failAt, sends, sfail, running, mpc, wCancelReq, rsStarted, rsFinished, cur, produced, begun, closed, released,
                         delivered, finalSent, mexc, outcome>>
 WCancelled == /\ Free /\ wpc = "recv" /\ wCancelReq /\ wpc' = "done"
-              /\ UNCHANGED <<n, raiseAt, running, mpc, clientClosed, discDelivered, wCancelReq, rsStarted, rsFinished, cur, produced, begun, closed, released,
+              /\ UNCHANGED <<n, raiseAt, failAt, sends, sfail, running, mpc, clientClosed, discDelivered, wCancelReq, rsStarted, rsFinished, cur, produced, begun, closed, released,
                              delivered, finalSent, mexc, outcome>>
 
-Next == MSendStart \/ MSpawn \/ MTop \/ MItem \/ MEnd \/ MProducerRaise \/ MRelease \/ MSendBody \/ MSent \/ MFin \/ MRaise \/ MSendFinal \/ MReturn
+Next == MSendStart \/ MSpawn \/ MTop \/ MItem \/ MEnd \/ MProducerRaise \/ MRelease \/ MSendBody \/ MSent \/ MFin \/ MRaise \/ MSendFinal \/ MSendFailed \/ MReturn
         \/ WStart \/ WDisc \/ WCancelled
 Spec == Init /\ [][Next]_vars
-FairSpec == Spec /\ WF_vars(MSendStart \/ MSpawn \/ MTop \/ MItem \/ MEnd \/ MProducerRaise \/ MRelease \/ MSendBody \/ MSent \/ MFin \/ MRaise \/ MSendFinal \/ MReturn)
+FairSpec == Spec /\ WF_vars(MSendStart \/ MSpawn \/ MTop \/ MItem \/ MEnd \/ MProducerRaise \/ MRelease \/ MSendBody \/ MSent \/ MFin \/ MRaise \/ MSendFinal \/ MSendFailed \/ MReturn)
                  /\ WF_vars(WStart \/ WCancelled)
 
 RECURSIVE Iota(_)
@@ -128,6 +134,8 @@ Settled == AllDone => ((begun => closed = 1) /\ (rsStarted => released))
 CompleteWhenUndisturbed == (outcome = "returned" /\ ~discDelivered) => (delivered = Iota(n) /\ finalSent /\ raiseAt = 0)
 RaisedIsReported == (mpc = "done" /\ mexc) => outcome = "raised"
 RaisedOnlyIfProducerRaised == outcome = "raised" => mexc
+SendFailureReported == (mpc = "done" /\ (sfail \/ (failAt # 0 /\ sends >= failAt))) => outcome \in {"sendfailed", "raised"}
+NothingAfterFailure == sends <= (IF failAt = 0 THEN sends ELSE failAt)
 Terminates == <>[]AllDone
 \* after the disconnect the call needs at most the producer's next step
 ReturnsAfterNextStep == clientClosed ~> mpc = "done"
